@@ -272,6 +272,40 @@ def run(tier, seed):
                                    "dtype_arg": None if dtype is None else str(np.dtype(dtype)),
                                    "what": "marker bytes as samples at a read boundary"})
             files_for_wds.append(("long.sph", blob, x, None))
+        # shorten-compressed and G.711 SPHERE files: behaviours exported from spec/Shorten.tla (a fixed corpus,
+        # harness/data/shorten_corpus.json) decoded against the samples the specification's encoder was given; companded
+        # files with a requested dtype (a final cast of the EXPANDED samples, unless it is one byte wide)
+        import c12
+        import c13
+        g711 = c12.export("G711", "G711.cfg")
+        ulaw_t, alaw_t = np.array(g711["ulaw"], dtype=np.int64), np.array(g711["alaw"], dtype=np.int64)
+        corpus = json.load(open(os.path.join(os.path.dirname(os.path.abspath(__file__)), "data", "shorten_corpus.json")))["behaviours"]
+        for kk, beh in enumerate(corpus):
+            c13.check_behaviour(run, kk, beh, ulaw_t, tmp, rng)
+        for coding, tab in (("ulaw", ulaw_t), ("alaw", alaw_t)):
+            for nchan, n in ((1, 300), (3, 7000)):
+                codes = nprng.randint(0, 256, size=(n, nchan)).astype(np.uint8)
+                blob = sph_util.law_file(codes if nchan > 1 else codes.reshape(-1), coding, nchan)
+                with open("law.sph", "wb") as f:
+                    f.write(blob)
+                exp16 = tab[codes if nchan > 1 else codes.reshape(-1)].astype(np.int16)
+                for dtype in (None, np.int16, np.float32, np.float64, np.int32, np.int64, np.uint8):
+                    kwd = {} if dtype is None else {"dtype": dtype}
+                    want = exp16 if dtype is None else ((codes if nchan > 1 else codes.reshape(-1)).astype(dtype) if np.dtype(dtype).itemsize == 1 else exp16.astype(dtype))
+                    for src in ("path", "stream"):
+                        run.evaluations += 1
+                        try:
+                            with warnings.catch_warnings():
+                                warnings.simplefilter("ignore")
+                                got = util.read_signal("law.sph", **kwd) if src == "path" else util.read_signal(io.BytesIO(blob), force_as="sph", **kwd)
+                        except Exception as e:
+                            run.violation({"kind": "read_signal_raised", "reader": "sph", "coding": coding, "channels": nchan, "src": src,
+                                           "dtype_arg": None if dtype is None else str(np.dtype(dtype)), "error": repr(e)})
+                            continue
+                        if not same(got, want):
+                            run.violation({"kind": "read_back_differs_from_stored", "reader": "sph", "coding": coding, "channels": nchan, "src": src,
+                                           "dtype_arg": None if dtype is None else str(np.dtype(dtype)),
+                                           "got_dtype": str(getattr(got, "dtype", None)), "got_shape": list(getattr(got, "shape", []))})
         # the table has no memory: after all the calls above (including every refused one) the
         # IOError / ValueError rows must still come out the same
         for row in rows:
